@@ -225,7 +225,12 @@ func (e *refEnv) stop() error {
 
 // dial opens a scripted connection from ip.
 func (e *refEnv) dial(ip net.IP, port int) (*connDriver, error) {
-	c, err := e.srv.connect(&net.TCPAddr{IP: ip, Port: port})
+	return e.dialZone(ip, port, "")
+}
+
+// dialZone: the remote address carries an IPv6 zone (fe80::1%eth0).
+func (e *refEnv) dialZone(ip net.IP, port int, zone string) (*connDriver, error) {
+	c, err := e.srv.connect(&net.TCPAddr{IP: ip, Port: port, Zone: zone})
 	if err != nil {
 		return nil, err
 	}
